@@ -515,7 +515,7 @@ func checkC20Swallow(p *Prog, r *Report, ru *Rule) {
 				if t.Len() > 0 && isErrorType(t.At(t.Len()-1).Type()) {
 					if e := extractOf(call, t.Len()-1); nil != e {
 						errV = e
-					} else if !untestedOK(name) {
+					} else if !untestedOK(name) && !infallibleWrite(call) {
 						per[name]++
 						bad++
 						ru.Bad(fmt.Sprintf("%s→%s#%d:discarded", fnName(fn), name, per[name]), posOf(call), "the error of %s is discarded during start-up", name)
@@ -892,4 +892,14 @@ func hasOutput(f *ssa.Function, depth int) bool {
 		}
 	})
 	return out
+}
+
+// infallibleWrite: Write on a hash.Hash, which is documented never to return
+// an error.
+func infallibleWrite(call *ssa.Call) bool {
+	c := call.Common()
+	if !c.IsInvoke() || "Write" != c.Method.Name() {
+		return false
+	}
+	return typeIs(c.Value.Type(), "hash", "Hash") || typeIs(c.Value.Type(), "hash", "Hash32") || typeIs(c.Value.Type(), "hash", "Hash64")
 }
